@@ -8,6 +8,7 @@ import (
 
 	"evylang.dev/evy/vdrv/c08"
 	"evylang.dev/evy/vdrv/c14"
+	"evylang.dev/evy/vdrv/c15"
 	"evylang.dev/evy/vdrv/core"
 )
 
@@ -17,6 +18,8 @@ func driver(prop string) core.Driver {
 		return &c14.D{}
 	case "C08":
 		return &c08.D{}
+	case "C15":
+		return &c15.D{}
 	}
 	return nil
 }
